@@ -36,7 +36,7 @@ inductive Action where
   | timeParseKeep
   | parseInt32Keep                 -- strconv.ParseInt(tv, 10, 32): syntax or range error: err, v left as it was
   | fmtUint                        -- strconv.FormatUint(uint64(tv), 10), unsigned arms only
-  | parseFloatFinite               -- ParseFloat(tv, 64); a parse error keeps v, a non-finite result is refused with nil
+  | parseFloatFinite (t : NumT)    -- ParseFloat(tv, 64) [then float32(f)]; a parse error keeps v, a non-finite result is refused with nil
   | convStrict (t : NumT)           -- `conv` with the result checked (range / finiteness), else err + nil: the float `CoerceIn` arms
   deriving DecidableEq, Repr, Inhabited
 
@@ -188,10 +188,12 @@ def applyAction (ext : Ext F) (a : Action) (v : GoVal F) : GoVal F × Bool :=
                   | some x => (.flt t.kind (if t == .f32 then ext.round32 x else x), false)
                   | none => (v, true))
      | _ => (v, false))
-  | .parseFloatFinite =>
+  | .parseFloatFinite t =>
     (match v with
      | .str s => (match ext.parse s with
-                  | some x => if ext.isFinite x then (.flt .f64 x, false) else (.nil, true)
+                  | some x =>
+                    let y := if t == .f32 then ext.round32 x else x
+                    if ext.isFinite y then (.flt t.kind y, false) else (.nil, true)
                   | none => (v, true))
      | _ => (v, false))
   | .parseBoolKeep =>
